@@ -77,6 +77,9 @@ theorem GOk.trans {s : Store} {a b c : GSt} (h₁ : GOk s a b) (h₂ : GOk s b c
 theorem GInv.pre {s : Store} {st : GSt} (h : GInv s st) (u v : Nat) : GOk s st (gPre st u v) :=
   ⟨⟨h.pm, h.fm, h.mpf, h.disj, h.fnd, h.topo, h.dlog⟩, rfl, fun _ h => h, fun _ h => h⟩
 
+theorem GInv.skip {s : Store} {st : GSt} (h : GInv s st) : GOk s st (gSkip st) :=
+  ⟨⟨h.pm, h.fm, h.mpf, h.disj, h.fnd, h.topo, h.dlog⟩, rfl, fun _ h => h, fun _ h => h⟩
+
 theorem GInv.miss {s : Store} {st : GSt} (h : GInv s st) (v : Nat) : GOk s st (gMiss st v) :=
   ⟨⟨h.pm, h.fm, h.mpf, h.disj, h.fnd, h.topo,
       fun x hx w hw => List.mem_cons_of_mem _ (h.dlog x hx w hw)⟩,
@@ -102,8 +105,8 @@ theorem gLoop_ok (s : Store) (stop : Bool) (u : Nat) (rec : Nat → GSt → Out 
     | none =>
       simp only
       intro hok
-      obtain ⟨l1, l2⟩ := ih st h hok
-      refine ⟨l1, ?_⟩
+      obtain ⟨l1, l2⟩ := ih (gSkip st) h.skip.inv hok
+      refine ⟨h.skip.trans l1, ?_⟩
       intro i' hi' v hv
       rcases List.mem_cons.1 hi' with rfl | hi'
       · rw [ht] at hv; cases hv
